@@ -8,7 +8,9 @@ Monitors over call histories that share DataFrame and tokenizer objects:
  (iii) each call's result equals the result of the same call made in isolation on fresh deep copies
       and a freshly constructed tokenizer (incl. edit_distance_join's shared default tokenizer)."""
 import copy
+import os
 import random
+import sys
 
 from rv import env, gen, model, monitors, oracle
 from rv import tables as T
@@ -86,7 +88,7 @@ def random_step(rng, pool):
         call = dict(base, api=api, allow_missing=rng.random() < 0.3, out_sim_score=rng.random() < 0.8)
         if api == 'edit_distance_join':
             step['tok'] = rng.choice(['QB', 'QS', 'QU', 'D', 'D'])
-            call['threshold'] = rng.choice([0, 1, 2, 3])
+            call['threshold'] = rng.choice([0, 1, 2, 3, 1.5, 2.5, 0.5, 2.0])
             call['comp_op'] = rng.choice(['<=', '<', '='])
         else:
             step['tok'] = rng.choice(['S', 'B', 'QB', 'QS', 'QU'])
@@ -118,9 +120,9 @@ def random_step(rng, pool):
             f = {'kind': kind, 'measure': m, 'allow_empty': rng.random() < 0.6,
                  'allow_missing': rng.random() < 0.3, 'measure_spelling': gen.spell(rng, m)}
             if m == 'OVERLAP':
-                f['threshold'] = rng.choice([1, 2])
+                f['threshold'] = rng.choice([1, 2, 1.5])
             elif m == 'EDIT_DISTANCE':
-                f['threshold'] = rng.choice([0, 1, 2])
+                f['threshold'] = rng.choice([0, 1, 2, 1.5, 0.5])
             else:
                 f['threshold'] = gen.random_threshold(rng)
             step['tok'] = rng.choice(['QB', 'QS']) if m == 'EDIT_DISTANCE' else rng.choice(['S', 'B', 'QB', 'QS', 'QU'])
@@ -175,6 +177,75 @@ def random_step(rng, pool):
         call['show_progress'] = True
     step['call'] = call
     return step
+
+
+DEEP = {'budget': 0, 'batteries': 0}
+
+
+def state_change_battery(ssj, rec, case, iso_call, where):
+    """The call just made changed module-level state of the library.  Whether that matters is decided
+    on variants of that very call (other operators, thresholds with and without a fractional part):
+    each is run here, in the process whose state changed, and in a process of its own."""
+    api = iso_call.get('api')
+    variants = []
+    if api == 'edit_distance_join':
+        grid = [(op, t) for t in (0.5, 1.5, 2.5, 1, 2) for op in ('=', '<', '<=')]
+    elif api == 'overlap_join':
+        grid = [(op, t) for t in (1, 1.5, 2) for op in ('>=', '>', '=')]
+    elif api in T.JOINS:
+        grid = [(op, t) for t in (iso_call.get('threshold'), 0.5, 1.0, 0.3333) for op in ('>=', '>', '=')]
+    elif api == 'apply_matcher':
+        grid = [(op, t) for t in (iso_call.get('threshold'), 0.5) for op in ('>=', '>', '<=', '<', '=', '!=')]
+    else:
+        grid = [(None, None)]
+    for op, t in grid[:15]:
+        c = copy.deepcopy(iso_call)
+        if op is not None:
+            c['comp_op'], c['threshold'] = op, t
+        variants.append(c)
+    for c in variants:
+        try:
+            here = repr(result_digest(T.exec_call(ssj, copy.deepcopy(c))))
+        except Exception as e:
+            here = 'raised %s' % type(e).__name__
+        fresh = fresh_process_digest(c)
+        if fresh is None:
+            rec.count('fresh_process_runs_failed')
+            continue
+        rec.count('fresh_process_comparisons')
+        rec.count('state_change_battery_calls')
+        there = fresh.get('digest') if fresh.get('raised') is None else 'raised %s' % fresh['raised'].split(':')[0]
+        if here != there:
+            rec.violation('history_dependence', where + 'changed module-level state of the library (%s); '
+                          'afterwards %s(comp_op=%r, threshold=%r) on fresh tables gives another result in '
+                          'this process than in a process of its own'
+                          % (sorted(rec.sets.get('library_module_state_changed', []))[:2], api,
+                             c.get('comp_op'), c.get('threshold')), case=case)
+            break
+
+
+def fresh_process_digest(iso_call):
+    import json
+    import subprocess
+    import tempfile
+    fd, path = tempfile.mkstemp(prefix='rv_iso_', suffix='.json', dir=os.environ.get('VERIF_WORK') or None)
+    try:
+        with os.fdopen(fd, 'w') as f:
+            json.dump({'call': T.jsonable(iso_call)}, f, allow_nan=True)
+        p = subprocess.run([sys.executable, '-m', 'rv.isolated', path], stdout=subprocess.PIPE,
+                           stderr=subprocess.DEVNULL, timeout=300, env=env.child_env(),
+                           cwd=env.VERIF_DIR)
+        for line in p.stdout.decode('utf8', 'replace').split('\n'):
+            if line.startswith('RV-ISOLATED '):
+                return json.loads(line[len('RV-ISOLATED '):])
+    except Exception:
+        return None
+    finally:
+        try:
+            os.unlink(path)
+        except OSError:
+            pass
+    return None
 
 
 def result_digest(res):
@@ -243,11 +314,23 @@ def run_case(case, rec, ssj=None):
         flips_before = len(monitors.tok_counts(tok_obj)[1]) if tok_obj is not None else 0
         raised = None
         gstate = monitors.global_state()
+        mstate = monitors.library_module_state()
         try:
             res = T.exec_call(ssj, run_call, shared)
         except Exception as e:
             raised = e
         rec.count('calls')
+        mafter = monitors.library_module_state()
+        rec.count('library_module_states_compared')
+        if mafter != mstate:
+            # not a violation by itself; from now on calls are also compared with a fresh process
+            changed = sorted(k for k in set(mafter) | set(mstate) if mafter.get(k) != mstate.get(k))
+            rec.count('library_module_state_changes(not judged by itself)')
+            rec.add('library_module_state_changed', tuple(changed[:3]))
+            DEEP['budget'] = 40
+            if DEEP['batteries'] < 2 and raised is None:
+                DEEP['batteries'] += 1
+                DEEP['pending'] = True
         gafter = monitors.global_state()
         rec.count('global_state_snapshots_compared')
         soft = ('random.state', 'np.random.state', 'environ')     # may be touched by joblib / pandas
@@ -324,6 +407,21 @@ def run_case(case, rec, ssj=None):
                           'isolation' % (e,), case=dict(case, step=k))
             continue
         rec.count('isolated_comparisons')
+        if DEEP.pop('pending', False):
+            state_change_battery(ssj, rec, dict(case, step=k), iso_call, where)
+        if DEEP['budget'] > 0:
+            DEEP['budget'] -= 1
+            fresh = fresh_process_digest(iso_call)
+            if fresh is None:
+                rec.count('fresh_process_runs_failed')
+            else:
+                rec.count('fresh_process_comparisons')
+                if fresh.get('raised') is not None or fresh.get('digest') != repr(result_digest(res)):
+                    rec.violation('history_dependence', where + 'result differs from the same call made in a '
+                                  'fresh process (module-level state of the library had changed earlier in '
+                                  'this process: %s): fresh process %s' % (
+                                      sorted(rec.sets.get('library_module_state_changed', []))[:2],
+                                      fresh.get('raised') or 'returned other rows'), case=dict(case, step=k))
         if result_digest(res) != result_digest(iso):
             rec.violation('history_dependence', where + 'result differs from the same call made in '
                           'isolation on fresh objects (history: %s rows, isolated: %s rows)'
